@@ -1,28 +1,49 @@
 //! SplitMix64 stream; every case derives its own stream from (seed, property, shard, case).
 #[derive(Clone)]
-pub struct Rng(pub u64);
+pub struct Rng {
+    s: u64,
+    /// coverage-guided runs: decisions are read from the fuzzer's bytes (two per draw) while they last, so
+    /// that a mutated byte changes exactly one decision; afterwards the SplitMix stream continues
+    feed: Option<(std::rc::Rc<Vec<u8>>, usize)>,
+}
 
 impl Rng {
     pub fn new(seed: u64) -> Rng {
-        Rng(seed)
+        Rng { s: seed, feed: None }
+    }
+    pub fn with_feed(seed: u64, bytes: &[u8]) -> Rng {
+        Rng { s: seed, feed: Some((std::rc::Rc::new(bytes.to_vec()), 0)) }
+    }
+    pub fn feed_left(&self) -> usize {
+        match &self.feed {
+            Some((b, i)) => b.len().saturating_sub(*i),
+            None => 0,
+        }
     }
     pub fn derive(seed: u64, prop: &str, stream: u64, case: u64) -> Rng {
         let mut h = seed ^ 0x6a09e667f3bcc908;
         for b in prop.bytes() {
             h = (h ^ b as u64).wrapping_mul(0x100000001b3);
         }
-        let mut r = Rng(h);
+        let mut r = Rng::new(h);
         let a = r.next();
-        let mut r = Rng(a ^ stream.wrapping_mul(0x9E3779B97F4A7C15));
+        let mut r = Rng::new(a ^ stream.wrapping_mul(0x9E3779B97F4A7C15));
         let b = r.next();
-        let mut r = Rng(b ^ case.wrapping_mul(0xD6E8FEB86659FD93));
+        let mut r = Rng::new(b ^ case.wrapping_mul(0xD6E8FEB86659FD93));
         r.next();
         r
     }
     #[inline]
     pub fn next(&mut self) -> u64 {
-        self.0 = self.0.wrapping_add(0x9E3779B97F4A7C15);
-        let mut z = self.0;
+        if let Some((b, i)) = &mut self.feed {
+            if *i + 1 < b.len() {
+                let v = b[*i] as u64 | (b[*i + 1] as u64) << 8;
+                *i += 2;
+                return v;
+            }
+        }
+        self.s = self.s.wrapping_add(0x9E3779B97F4A7C15);
+        let mut z = self.s;
         z = (z ^ (z >> 30)).wrapping_mul(0xBF58476D1CE4E5B9);
         z = (z ^ (z >> 27)).wrapping_mul(0x94D049BB133111EB);
         z ^ (z >> 31)
